@@ -858,6 +858,43 @@ impl CompressedState {
     { unimplemented!() }
 }
 
+// OPAQUE (Golomb / length-limited-unary pair decoder).  Only the length of the result is assumed; the preconditions are what its body needs.
+#[verifier::external_body]
+fn uncompress_surprising_values(
+    data: &[u32],
+    data_words: usize,
+    num_pairs: u32,
+    lg_k: u8,
+) -> (r: Vec<u32>)
+  requires 4 <= lg_k <= 26,
+    /*@C14.cpc.usv.pairs_u32*/ pow2(lg_k as nat) + num_pairs <= 0xffff_ffff,
+    /*@C14.cpc.usv.alloc_pairs*/ 2 * num_pairs <= 32 * data@.len(),
+  ensures r@.len() == num_pairs
+{ unimplemented!() }
+
+impl CompressedState {
+    // the sparse arm of `uncompress`, real body: REACHED FROM deserialize; nothing is known of `self` but what the parser established (cs_of(bytes))
+    fn uncompress_sparse_flavor(&self, lg_k: u8) -> (r: UncompressedState)
+      requires 4 <= lg_k <= 26
+      ensures r.window@.len() == 0, r.table.wf(), r.table.num_valid_bits == 6 + lg_k, r.table.num_items == self.table_num_entries
+    {
+        debug_assert!(self.window_data.is_empty());
+        debug_assert!(!self.table_data.is_empty());
+
+        let pairs = uncompress_surprising_values(
+            &self.table_data,
+            self.table_data_words,
+            self.table_num_entries,
+            lg_k,
+        );
+
+        UncompressedState {
+            table: PairTable::from_slots(lg_k, self.table_num_entries, pairs),
+            window: vec![],
+        }
+    }
+}
+
 impl CpcSketch {
     spec fn k(&self) -> int { pow2(self.lg_k as nat) as int }
     spec fn tbl(&self) -> ISet<u32> { if self.surprising_value_table is Some { self.surprising_value_table->0.items() } else { ISet::empty() } }
